@@ -204,6 +204,25 @@ func (h *DBH) RunTx(st Step, writable bool, pre func(i int, op *Op)) (tr TxResul
 
 func bs(s S) []byte { return []byte(s) }
 
+// kb converts an argument; with op.Nil an empty argument is passed as a nil slice.
+func kb(op Op, s S) []byte {
+	if op.Nil && len(s) == 0 {
+		return nil
+	}
+	return []byte(s)
+}
+
+func kbs(op Op) [][]byte {
+	if op.Nil && len(op.Vs) == 0 {
+		return nil
+	}
+	out := make([][]byte, len(op.Vs))
+	for i := range op.Vs {
+		out[i] = kb(op, op.Vs[i])
+	}
+	return out
+}
+
 func bss(v []S) [][]byte {
 	out := make([][]byte, len(v))
 	for i := range v {
@@ -323,16 +342,16 @@ func ExecOp(h *DBH, tx *nutsdb.Tx, op Op) (res Res) {
 	b, b2 := string(op.B), string(op.B2)
 	switch op.K {
 	case "put":
-		return errRes(tx.Put(b, bs(op.Key), bs(op.V), op.TTL))
+		return errRes(tx.Put(b, kb(op, op.Key), kb(op, op.V), op.TTL))
 	case "putts":
-		return errRes(tx.PutWithTimestamp(b, bs(op.Key), bs(op.V), op.TTL, op.TS))
+		return errRes(tx.PutWithTimestamp(b, kb(op, op.Key), kb(op, op.V), op.TTL, op.TS))
 	case "putbig":
 		// an entry larger than the segment size: accepted by Put, rejected by Commit
-		return errRes(tx.Put(b, bs(op.Key), make([]byte, h.Cfg.Seg+1), 0))
+		return errRes(tx.Put(b, kb(op, op.Key), make([]byte, h.Cfg.Seg+1), 0))
 	case "del":
-		return errRes(tx.Delete(b, bs(op.Key)))
+		return errRes(tx.Delete(b, kb(op, op.Key)))
 	case "get":
-		e, err := tx.Get(b, bs(op.Key))
+		e, err := tx.Get(b, kb(op, op.Key))
 		if err != nil {
 			return rErr()
 		}
@@ -343,71 +362,71 @@ func ExecOp(h *DBH, tx *nutsdb.Tx, op Op) (res Res) {
 	case "getall":
 		return entriesRes(tx.GetAll(b))
 	case "rangescan":
-		return entriesRes(tx.RangeScan(b, bs(op.Key), bs(op.Key2)))
+		return entriesRes(tx.RangeScan(b, kb(op, op.Key), kb(op, op.Key2)))
 	case "prefixscan":
-		es, _, err := tx.PrefixScan(b, bs(op.Key), op.I, op.Lim)
+		es, _, err := tx.PrefixScan(b, kb(op, op.Key), op.I, op.Lim)
 		return entriesRes(es, err)
 	case "prefixsearchscan":
-		es, _, err := tx.PrefixSearchScan(b, bs(op.Key), op.Re, op.I, op.Lim)
+		es, _, err := tx.PrefixSearchScan(b, kb(op, op.Key), op.Re, op.I, op.Lim)
 		return entriesRes(es, err)
 	case "rpush":
-		return errRes(tx.RPush(b, bs(op.Key), bss(op.Vs)...))
+		return errRes(tx.RPush(b, kb(op, op.Key), kbs(op)...))
 	case "lpush":
-		return errRes(tx.LPush(b, bs(op.Key), bss(op.Vs)...))
+		return errRes(tx.LPush(b, kb(op, op.Key), kbs(op)...))
 	case "lpop":
-		return valRes(tx.LPop(b, bs(op.Key)))
+		return valRes(tx.LPop(b, kb(op, op.Key)))
 	case "rpop":
-		return valRes(tx.RPop(b, bs(op.Key)))
+		return valRes(tx.RPop(b, kb(op, op.Key)))
 	case "lpeek":
-		return valRes(tx.LPeek(b, bs(op.Key)))
+		return valRes(tx.LPeek(b, kb(op, op.Key)))
 	case "rpeek":
-		return valRes(tx.RPeek(b, bs(op.Key)))
+		return valRes(tx.RPeek(b, kb(op, op.Key)))
 	case "lsize":
-		return nRes(tx.LSize(b, bs(op.Key)))
+		return nRes(tx.LSize(b, kb(op, op.Key)))
 	case "lrange":
-		l, err := tx.LRange(b, bs(op.Key), op.I, op.J)
+		l, err := tx.LRange(b, kb(op, op.Key), op.I, op.J)
 		return listRes(l, err, false)
 	case "lrem":
-		return nRes(tx.LRem(b, bs(op.Key), op.I, bs(op.V)))
+		return nRes(tx.LRem(b, kb(op, op.Key), op.I, kb(op, op.V)))
 	case "lset":
-		return errRes(tx.LSet(b, bs(op.Key), op.I, bs(op.V)))
+		return errRes(tx.LSet(b, kb(op, op.Key), op.I, kb(op, op.V)))
 	case "ltrim":
-		return errRes(tx.LTrim(b, bs(op.Key), op.I, op.J))
+		return errRes(tx.LTrim(b, kb(op, op.Key), op.I, op.J))
 	case "sadd":
-		return errRes(tx.SAdd(b, bs(op.Key), bss(op.Vs)...))
+		return errRes(tx.SAdd(b, kb(op, op.Key), kbs(op)...))
 	case "srem":
-		return errRes(tx.SRem(b, bs(op.Key), bss(op.Vs)...))
+		return errRes(tx.SRem(b, kb(op, op.Key), kbs(op)...))
 	case "spop":
-		return valRes(tx.SPop(b, bs(op.Key)))
+		return valRes(tx.SPop(b, kb(op, op.Key)))
 	case "sismember":
-		return bRes(tx.SIsMember(b, bs(op.Key), bs(op.V)))
+		return bRes(tx.SIsMember(b, kb(op, op.Key), kb(op, op.V)))
 	case "saremembers":
-		return bRes(tx.SAreMembers(b, bs(op.Key), bss(op.Vs)...))
+		return bRes(tx.SAreMembers(b, kb(op, op.Key), kbs(op)...))
 	case "smembers":
-		l, err := tx.SMembers(b, bs(op.Key))
+		l, err := tx.SMembers(b, kb(op, op.Key))
 		return listRes(l, err, true)
 	case "scard":
-		return nRes(tx.SCard(b, bs(op.Key)))
+		return nRes(tx.SCard(b, kb(op, op.Key)))
 	case "shaskey":
-		return bRes(tx.SHasKey(b, bs(op.Key)))
+		return bRes(tx.SHasKey(b, kb(op, op.Key)))
 	case "sdiff1":
-		l, err := tx.SDiffByOneBucket(b, bs(op.Key), bs(op.Key2))
+		l, err := tx.SDiffByOneBucket(b, kb(op, op.Key), kb(op, op.Key2))
 		return listRes(l, err, true)
 	case "sdiff2":
-		l, err := tx.SDiffByTwoBuckets(b, bs(op.Key), b2, bs(op.Key2))
+		l, err := tx.SDiffByTwoBuckets(b, kb(op, op.Key), b2, kb(op, op.Key2))
 		return listRes(l, err, true)
 	case "sunion1":
-		l, err := tx.SUnionByOneBucket(b, bs(op.Key), bs(op.Key2))
+		l, err := tx.SUnionByOneBucket(b, kb(op, op.Key), kb(op, op.Key2))
 		return listRes(l, err, true)
 	case "sunion2":
-		l, err := tx.SUnionByTwoBuckets(b, bs(op.Key), b2, bs(op.Key2))
+		l, err := tx.SUnionByTwoBuckets(b, kb(op, op.Key), b2, kb(op, op.Key2))
 		return listRes(l, err, true)
 	case "smove1":
-		return bRes(tx.SMoveByOneBucket(b, bs(op.Key), bs(op.Key2), bs(op.V)))
+		return bRes(tx.SMoveByOneBucket(b, kb(op, op.Key), kb(op, op.Key2), kb(op, op.V)))
 	case "smove2":
-		return bRes(tx.SMoveByTwoBuckets(b, bs(op.Key), b2, bs(op.Key2), bs(op.V)))
+		return bRes(tx.SMoveByTwoBuckets(b, kb(op, op.Key), b2, kb(op, op.Key2), kb(op, op.V)))
 	case "zadd":
-		return errRes(tx.ZAdd(b, bs(op.Key), fval(op.F, op.FNaN%10), bs(op.V)))
+		return errRes(tx.ZAdd(b, kb(op, op.Key), fval(op.F, op.FNaN%10), kb(op, op.V)))
 	case "zmembers":
 		mm, err := tx.ZMembers(b)
 		if err != nil {
@@ -458,21 +477,32 @@ func ExecOp(h *DBH, tx *nutsdb.Tx, op Op) (res Res) {
 	case "zrangebyrank":
 		return nodesRes(tx.ZRangeByRank(b, op.I, op.J))
 	case "zrank":
-		return nRes(tx.ZRank(b, bs(op.Key)))
+		return nRes(tx.ZRank(b, kb(op, op.Key)))
 	case "zrevrank":
-		return nRes(tx.ZRevRank(b, bs(op.Key)))
+		return nRes(tx.ZRevRank(b, kb(op, op.Key)))
 	case "zscore":
-		f, err := tx.ZScore(b, bs(op.Key))
+		f, err := tx.ZScore(b, kb(op, op.Key))
 		if err != nil {
 			return rErr()
 		}
 		return rF(f)
 	case "zgetbykey":
-		return nodeRes(tx.ZGetByKey(b, bs(op.Key)))
+		return nodeRes(tx.ZGetByKey(b, kb(op, op.Key)))
 	case "zrem":
 		return errRes(tx.ZRem(b, string(op.Key)))
 	case "zremrangebyrank":
 		return errRes(tx.ZRemRangeByRank(b, op.I, op.J))
+	case "findtxid":
+		return bRes(tx.FindTxIDOnDisk(uint64(op.I), op.TS))
+	case "findondisk":
+		e, err := tx.FindOnDisk(uint64(op.I), uint64(op.J), kb(op, op.Key), kb(op, op.Key2))
+		if err != nil || e == nil {
+			return rErr()
+		}
+		return rV(kvItemStr(string(e.Key), string(e.Value)))
+	case "findleaf":
+		_, err := tx.FindLeafOnDisk(int64(op.I), int64(op.J), kb(op, op.Key), kb(op, op.Key2))
+		return errRes(err)
 	}
 	panic("drive: unknown op " + op.K)
 }
